@@ -156,7 +156,43 @@ def toy_cofactor(p, a, b) -> Dom:
     return Dom(name, lib, toy=True, h=h, group=group)
 
 
+@functools.lru_cache(maxsize=None)
+def toy_twin(name) -> Dom:
+    """same equation and group order as toy(name) but base point 2*G: a different Curve"""
+    base = toy(name[:-5])
+    G2 = rec.dbl(base.c, base.G)
+    lib = make_lib_curve(name, base.c, G2, base.n, 1, (1, 3, 9999, 2))
+    return Dom(name, lib, toy=True, h=1)
+
+
+@functools.lru_cache(maxsize=None)
+def toy_cofactor_noh(p, a, b) -> Dom:
+    """like toy_cofactor but the CurveFp is built without the optional cofactor argument"""
+    base = toy_cofactor(p, a, b)
+    cf = _ell.CurveFp(p, a % p, b % p)
+    g = _ell.PointJacobi(cf, base.G[0], base.G[1], 1, base.n, generator=True)
+    lib = Curve(base.name + "_noh", cf, g, (1, 3, 9999, 3))
+    return Dom(base.name + "_noh", lib, toy=True, h=base.h, group=base.group)
+
+
+@functools.lru_cache(maxsize=None)
+def toy_legacy(name) -> Dom:
+    """toy curve whose Curve.generator is a legacy ellipticcurve.Point (no mul_add, no tables)"""
+    base = toy(name[:-7])
+    cf = _ell.CurveFp(base.c[0], base.c[1], base.c[2], 1)
+    g = _ell.Point(cf, base.G[0], base.G[1], base.n)
+    lib = Curve(name, cf, g, (1, 3, 9999, 4))
+    return Dom(name, lib, toy=True, h=1)
+
+
 def dom(name) -> Dom:
+    if name.endswith("-legacy"):
+        return toy_legacy(name)
+    if name.endswith("_noh"):
+        _, p, a, b, _ = name.split("_")
+        return toy_cofactor_noh(int(p), int(a), int(b))
+    if name.endswith("-twin"):
+        return toy_twin(name)
     if name in TOY_PRIME:
         return toy(name)
     if name.startswith("tc_"):
